@@ -308,6 +308,8 @@ fn main() {
     }
 
     table_cipher_end_to_end(&check, None);
+    stored_jenkins_pair(&check);
+    file_key_behind_prefix(&check);
 
     // 1. table, exhaustive
     let rt = refcrypt::table();
@@ -461,6 +463,96 @@ fn main() {
     check.finish();
 }
 
+/// The Jenkins pair as the builder stores it: for names without letters (both case foldings coincide, so
+/// the listed upper-case deviation cannot interfere) name hash 1 in the HET table and name hash 2 in the
+/// BET table of a builder-made V3/V4 archive must be the two parts of the reference lookup3 value.
+fn stored_jenkins_pair(check: &Check) {
+    for version in [wow_mpq::FormatVersion::V3, wow_mpq::FormatVersion::V4] {
+        let dir = vcheck::engine::scratch("c04j");
+        let p = dir.path().join("j.mpq");
+        let n = 300usize;
+        let name = |i: usize| format!("{:04}\\{:03}/{:05}_{}.{:03}", i % 7, i % 11, i * 7919 % 100000, "0123456789-+=!#$%&()[]{}~^@ ".chars().nth(i % 28).unwrap(), i % 1000);
+        let mut b = wow_mpq::ArchiveBuilder::new().version(version);
+        for i in 0..n {
+            b = b.add_file_data(format!("{i}").into_bytes(), &name(i));
+        }
+        let r: Result<(), Fail> = (|| {
+            vcheck::engine::guard("ArchiveBuilder::build", || b.build(&p))?.map_err(|e| Fail::new("stored-jenkins-pair:build-fails", e.to_string()))?;
+            let a = vcheck::engine::guard("Archive::open", || wow_mpq::Archive::open(&p))?.map_err(|e| Fail::new("stored-jenkins-pair:archive-does-not-open", e.to_string()))?;
+            let (Some(het), Some(bet)) = (a.het_table(), a.bet_table()) else {
+                return Err(Fail::new("stored-jenkins-pair:extended-tables-not-loaded", format!("{version:?}: a builder-made archive opens without its HET/BET tables")));
+            };
+            let bits = bet.header.bet_hash_size;
+            let mask = if bits >= 64 { u64::MAX } else { (1u64 << bits) - 1 };
+            for i in 0..n {
+                let nm = name(i);
+                let want = ref_het(&nm, (bits + 8).min(64)).0 & mask;
+                let (_, candidates) = het.find_file_with_collision_info(&nm);
+                let stored: Vec<Option<u64>> = candidates.iter().map(|&c| bet.get_file_hash(c)).collect();
+                if !stored.iter().any(|h| *h == Some(want)) {
+                    return Err(Fail::new(
+                        "stored-jenkins-pair:bet-name-hash-differs-from-lookup3",
+                        format!("{version:?}: {nm:?} — reference name hash 2 ({bits} bits) is {want:#x}; the HET table offers {} candidate(s) whose stored BET hashes are {stored:x?}", candidates.len()),
+                    ));
+                }
+            }
+            check.count(&format!("stored-jenkins-pair:{version:?}:{n}-names:{bits}-bit"), true);
+            Ok(())
+        })();
+        if let Err(f) = r {
+            check.fail(&f, json!({"kind": "stored_jenkins_pair", "version": format!("{version:?}")}));
+        }
+    }
+}
+
+/// The position-adjusted file key is derived from the position relative to the MPQ header: the same
+/// archive bytes behind a prefix of k×512 bytes must read identically.
+fn file_key_behind_prefix(check: &Check) {
+    for version in [wow_mpq::FormatVersion::V1, wow_mpq::FormatVersion::V2, wow_mpq::FormatVersion::V4] {
+        let dir = vcheck::engine::scratch("c04k");
+        let p = dir.path().join("k.mpq");
+        let files: Vec<(String, Vec<u8>, bool, u8)> = (0..12usize)
+            .map(|i| {
+                let len = [0usize, 3, 17, 4095, 4096, 4097, 9000, 20000][i % 8];
+                let body: Vec<u8> = (0..len).map(|k| ((k * 31 + i * 7) % 251) as u8 ^ if i % 3 == 0 { (k / 9) as u8 } else { 0 }).collect();
+                (format!("Keys\\Dir{}\\file_{i}.bin", i % 3), body, i % 2 == 0, if i % 4 < 2 { wow_mpq::compression::flags::ZLIB } else { 0 })
+            })
+            .collect();
+        let mut b = wow_mpq::ArchiveBuilder::new().version(version);
+        for (n, d, fix, m) in &files {
+            b = b.add_file_data_with_encryption(d.clone(), n, *m, *fix, 0);
+        }
+        let r: Result<(), Fail> = (|| {
+            vcheck::engine::guard("ArchiveBuilder::build", || b.build(&p))?.map_err(|e| Fail::new("file-key-behind-prefix:build-fails", e.to_string()))?;
+            let raw = std::fs::read(&p).map_err(|e| Fail::new("harness:io", e.to_string()))?;
+            for units in [0usize, 1, 3, 64] {
+                let q = dir.path().join(format!("k{units}.mpq"));
+                let mut img = vec![0x5Au8; units * 512];
+                img.extend_from_slice(&raw);
+                std::fs::write(&q, &img).map_err(|e| Fail::new("harness:io", e.to_string()))?;
+                let mut a = vcheck::engine::guard("Archive::open", || wow_mpq::Archive::open(&q))?
+                    .map_err(|e| Fail::new("file-key-behind-prefix:archive-does-not-open", format!("{version:?} behind {units}×512 bytes: {e}")))?;
+                for (n, d, fix, m) in &files {
+                    match vcheck::engine::guard("Archive::read_file", || a.read_file(n))? {
+                        Ok(g) if g == *d => {}
+                        other => {
+                            return Err(Fail::new(
+                                format!("file-key-behind-prefix:{}", if *fix { "fix-key" } else { "plain-key" }),
+                                format!("{version:?}, archive behind {units}×512 bytes: {n:?} ({} bytes, method {m:#x}, fix_key {fix}) reads {}", d.len(), match other { Ok(g) => format!("{} other bytes", g.len()), Err(e) => format!("Err({e})") }),
+                            ))
+                        }
+                    }
+                }
+                check.count(&format!("file-key-behind-prefix:{version:?}:{units}-units"), units > 0);
+            }
+            Ok(())
+        })();
+        if let Err(f) = r {
+            check.fail(&f, json!({"kind": "file_key_behind_prefix", "version": format!("{version:?}")}));
+        }
+    }
+}
+
 fn table_cipher_end_to_end(check: &Check, only: Option<&str>) {
     // 0. the table cipher end to end (tables/common.rs is crate-private): extended tables of
     //    builder-made V3/V4 archives with thousands of files are larger than any internal buffer of
@@ -551,6 +643,14 @@ fn replay(check: &Check, p: &std::path::Path) {
     let r: CaseResult = match c["kind"].as_str().unwrap_or("") {
         "table_cipher" => {
             table_cipher_end_to_end(check, c["version"].as_str());
+            Ok(())
+        }
+        "stored_jenkins_pair" => {
+            stored_jenkins_pair(check);
+            Ok(())
+        }
+        "file_key_behind_prefix" => {
+            file_key_behind_prefix(check);
             Ok(())
         }
         "hash" => check_hash(c["s"].as_str().unwrap()),
